@@ -97,7 +97,7 @@ class PrefixReplay(c01.Segmentation):
         return None
 
 
-def units(tier):
+def _own_units(tier):
     us = [
         _as_c15(c03.ReadArbitrary(VarInt), 'C15.varint.eof.VarInt'),
         _as_c15(c03.ReadArbitrary(VarLong), 'C15.varint.eof.VarLong'),
@@ -116,3 +116,8 @@ def units(tier):
         except (ImportError, AttributeError):
             pass
     return us
+
+
+def units(tier):
+    from .deps import dependency_units
+    return _own_units(tier) + dependency_units('C15')
